@@ -6,6 +6,7 @@ sys.path.insert(0, os.path.join(os.path.dirname(os.path.abspath(__file__)), ".."
 import vf
 import lanes
 import fpgen
+import sweep
 
 TYPES = [("i8", 1, "i"), ("u8", 1, "i"), ("i16", 2, "i"), ("u16", 2, "i"), ("i32", 4, "i"), ("u32", 4, "i"),
          ("i64", 8, "i"), ("u64", 8, "i"), ("f32", 4, "f"), ("f64", 8, "f")]
@@ -67,6 +68,29 @@ def body(ctx):
     ctx.model("IEEECheck.tla", "IEEECheckQuick.cfg", timeout=1200)
     ctx.model("K_ConvMagic.tla", timeout=900)
     plan = lanes.replay_plan(ctx.replay) if ctx.replay else make_plan(ctx)
+    if not ctx.replay and not os.environ.get("VERIF_NO_SWEEP"):
+        # selector sweep: every 32-bit source pattern (quick tier: every 64th, thorough: every 2nd, offset by the seed) through the
+        # int32/uint32 <-> float batch_cast of one architecture per conversion kernel family, and seeded samples of 64-bit sources
+        # (integers of every bit length, doubles up to 2^64) through the int64/uint64 <-> double casts, compared with the compiler's
+        # scalar cast; rows with a disagreeing lane (the best of every binade / bit length) join the plan and are judged by TLC
+        for aset, archs in (("x86", ctx.q(["sse2", "sse4_1", "avx", "avx2", "avx512f", "avx512dq"], ["sse2", "sse4_1", "avx", "avx2", "fma3<avx2>", "avx512f", "avx512dq", "avx512bw"])),
+                            ("emu", ["emulated<128>"])):
+            jobs = []
+            stride = int(os.environ.get("VERIF_SWEEP_STRIDE", "0")) or ctx.q(64, 2)
+            n64 = ctx.q(20000, 1000000)
+            for ai, arch in enumerate(archs):
+                sd = ctx.seed * 19 + ai
+                jobs.append(sweep.job("cv", "batch_cast:f32", "i32", arch, "cvi", "-", stride, sd))
+                jobs.append(sweep.job("cv", "batch_cast:f32", "u32", arch, "cvi", "-", stride, sd))
+                jobs.append(sweep.job("cv", "batch_cast:i32", "f32", arch, "eqi", "trunc", stride, sd, 0, 0x7FFFFFFF, "+-"))
+                jobs.append(sweep.job("cv", "batch_cast:u32", "f32", arch, "eqi", "truncu", stride, sd, 0, 0x7FFFFFFF, "+-"))
+                jobs.append(sweep.job("cv", "batch_cast:f64", "i64", arch, "cvi", "-", n64, sd))
+                jobs.append(sweep.job("cv", "batch_cast:f64", "u64", arch, "cvi", "-", n64, sd))
+                jobs.append(sweep.job("cv", "batch_cast:i64", "f64", arch, "eqi", "trunc", n64, sd, fpgen.f2b(0.25, 64), fpgen.f2b(2.0 ** 63, 64), "+-"))
+                jobs.append(sweep.job("cv", "batch_cast:u64", "f64", arch, "eqi", "truncu", n64, sd, fpgen.f2b(0.25, 64), fpgen.f2b(2.0 ** 64, 64), "+"))
+            srows, _info = sweep.run(ctx, "cvt", jobs, "c06sel_" + aset, archset=aset, keep=ctx.q(8, 32))
+            for r in srows:
+                plan.append("cv %s %s 0 %s - - -" % (r["op"], r["t"], sweep.hexrow(r, 4 if r["t"] in ("f32", "i32", "u32") else 8)))
     ctx.log("plan: %d lines" % len(plan))
     events, plan = lanes.record(ctx, "cvt", plan, "c06")
     events = split_to(events)
